@@ -359,11 +359,42 @@ func c03Distinct(t zed.Type, j int) zcode.Bytes {
 		return zed.EncodeDuration(nano.Duration(int64(j) * 1000001))
 	case zed.IDTime:
 		return zed.EncodeTime(nano.Ts(1600000000000000000 + int64(j)*999))
+	// float pools start with values that compare equal but differ in bytes
+	// (+0.0, -0.0, NaNs of two payloads): a column of such values is neither
+	// constant nor has it fewer dictionary entries than byte-distinct values
 	case zed.IDFloat16:
+		switch j {
+		case 0:
+			return zed.EncodeFloat16(0)
+		case 1:
+			return zed.EncodeFloat16(float32(math.Copysign(0, -1)))
+		case 2:
+			return zed.EncodeFloat16(float32(math.NaN()))
+		}
 		return zed.EncodeFloat16(float32(j%2048) / 2)
 	case zed.IDFloat32:
+		switch j {
+		case 0:
+			return zed.EncodeFloat32(0)
+		case 1:
+			return zed.EncodeFloat32(float32(math.Copysign(0, -1)))
+		case 2:
+			return zed.EncodeFloat32(math.Float32frombits(0x7fc00001))
+		case 3:
+			return zed.EncodeFloat32(math.Float32frombits(0xffc00002))
+		}
 		return zed.EncodeFloat32(float32(j) / 4)
 	case zed.IDFloat64:
+		switch j {
+		case 0:
+			return zed.EncodeFloat64(0)
+		case 1:
+			return zed.EncodeFloat64(math.Copysign(0, -1))
+		case 2:
+			return zed.EncodeFloat64(math.Float64frombits(0x7ff8000000000001))
+		case 3:
+			return zed.EncodeFloat64(math.Float64frombits(0xfff8000000000002))
+		}
 		return zed.EncodeFloat64(float64(j)/8 - 3)
 	case zed.IDBool:
 		return zed.EncodeBool(j%2 == 1)
